@@ -39,7 +39,7 @@ def run(ctx: Ctx) -> None:
         "private := leading underscore and not a dunder name, or nested in / defined in a private class, module or package, unless re-exported under a public name by the __init__ of a public package",
         "private enums and enums in private modules are emitted without a publicity test (open finding, tagged decl:enum)",
     ]
-    failures = engine.search(ctx, MOD, shards=ctx.n(16, 96), examples=ctx.n(12, 50))
+    failures = engine.search(ctx, MOD, shards=ctx.n(16, 96), examples=ctx.n(24, 50))
     engine.report_failures(ctx, MOD, failures)
     engine.replay_known(ctx, MOD)
 
